@@ -91,6 +91,9 @@ class Operation(ElementBase):
         surface or an intersection of multiple surface. WIP according to
         https://github.com/OpenFOAM/OpenFOAM-10/blob/master/src/meshTools/searchableSurfaces/searchableSurfacesQueries/searchableSurfacesQueries.H
         """
+        if corner < 0 or corner > 7:
+            raise ValueError(f"Invalid corner index ({corner}). Use operation-local indexing (0...7).")
+
         # bottom and top faces define operation's points
         if corner > 3:
             self.top_face.points[corner - 4].project(label)
